@@ -398,3 +398,50 @@ package eval
 //@   exit [relative-to-cwd-when-not-from-file] ncallsof("os.Getwd") >= 1 ==> !old(fm.src.IsFile) && ncallsof("os.Getwd") == 1 && callis(0, "os.Getwd") && ncallsof("filepath.Dir") == 0
 //@   exit [predefined-module-shared] old(haskey(fm.Evaler.modules, spec)) && ncallsof("filepath.Dir") + ncallsof("os.Getwd") == 0 ==> ncalls == 0 && err === nil && ns === old(fm.Evaler.modules[spec])
 //@   exit [only-missing-modules-are-skipped] forall k int :: 0 <= k && k < ncalls - 1 && callis(k, "useFromFile") && callis(k + 1, "useFromFile") ==> istype(callerr(k), NoSuchModule)
+
+// ---------------------------------------------------------------------------
+// C16: code with static errors never runs, and the static check agrees.
+// compile is assumed not to run user code and not to touch the Evaler (it only
+// builds operations); prepareFrame / nsOp.prepare are havoc.
+
+//@ func compile
+//@   trusted
+//@   pure
+//@ func Evaler.prepareFrame
+//@   trusted
+//@ func nsOp.prepare
+//@   trusted
+
+// Eval: parse, then compile; on a parse or compilation error that error is
+// returned, no frame is prepared, nothing is executed and the global namespace is
+// the one from before; the code is executed only after a successful compile; the
+// Evaler's lock is released on every path.
+//@ func Evaler.Eval
+//@   props C16
+//@   nosafety
+//@   log Parse compile Evaler.prepareFrame nsOp.prepare fv sync.RWMutex.Lock sync.RWMutex.Unlock
+//@   exit [parsed-first] callis(0, "Parse") && ncallsof("Parse") == 1
+//@   exit [parse-error-nothing-ran] !(callerr(0) === nil) ==> ncalls == 1 && result === callerr(0) && ev.global === old(ev.global)
+//@   exit [compiled-at-most-once] ncallsof("compile") <= 1
+//@   exit [compile-error-nothing-ran] forall k int :: 0 <= k && k < ncalls && callis(k, "compile") && !(callerr(k) === nil) ==> result === callerr(k) && ncallsof("fv") == 0 && ncallsof("nsOp.prepare") == 0 && ncallsof("Evaler.prepareFrame") == 0 && ev.global === old(ev.global)
+//@   exit [executed-only-after-successful-compile] ncallsof("fv") >= 1 || ncallsof("nsOp.prepare") >= 1 ==> ncallsof("compile") == 1 && callerr(0) === nil && (forall k int :: 0 <= k && k < ncalls && callis(k, "compile") ==> callerr(k) === nil)
+//@   exit [lock-released-on-every-path] ncallsof("sync.RWMutex.Lock") == ncallsof("sync.RWMutex.Unlock")
+
+// The static check reports exactly the parse error of Parse and the compilation
+// error of compile on the same tree, in the Evaler's current builtin/global
+// namespaces - the two calls Eval makes before deciding to run.
+//@ func Evaler.CheckTree
+//@   props C16
+//@   nosafety
+//@   log compile sync.RWMutex.RLock sync.RWMutex.RUnlock
+//@   results autofixes compileErr
+//@   exit [one-compile] ncallsof("compile") == 1 && callis(ncalls - 1, "compile") && compileErr === callerr(ncalls - 1)
+//@   exit [lock-released] ncallsof("sync.RWMutex.RLock") == ncallsof("sync.RWMutex.RUnlock")
+
+//@ func Evaler.Check
+//@   props C16
+//@   nosafety
+//@   log Parse Evaler.CheckTree
+//@   results parseErr autofixes compileErr
+//@   exit [parse-then-compile] ncalls == 2 && callis(0, "Parse") && callis(1, "Evaler.CheckTree")
+//@   exit [errors-reported-as-found] parseErr === callerr(0) && compileErr === callerr(1)
